@@ -42,7 +42,7 @@ SHARE = c01.SHARE
 def bounds(tier):
     q = tier == "quick"
     return {
-        "algorithms": A.ALGOS,
+        "algorithms": A.ALGOS + ["DQN+RSNorm", "DDPG+RSNorm", "TD3+RSNorm"],
         "obs_kinds": ["vector", "discrete"] if q else ["vector", "image", "dict", "tuple", "discrete"],
         "depth": "<=1 full alphabet + depth 2 (full x reduced)" if q else "<=2 full alphabet + depth 3 (reduced^3)",
         "load_paths": ["Algo.load", "fresh.load_checkpoint"],
@@ -51,7 +51,11 @@ def bounds(tier):
 
 
 def configs(tier):
-    return c01.configs(tier)
+    out = c01.configs(tier)
+    # agent-wrapper variant (RSNorm supports the off-policy learners; vector observations)
+    for algo, share in (("DQN", None), ("DDPG", True), ("TD3", True)):
+        out.append({"algo": algo, "kind": "vector", "share": share, "wrapper": "RSNorm"})
+    return out
 
 
 def tasks(tier, seed):
@@ -64,8 +68,8 @@ def tasks(tier, seed):
     return out
 
 
-def alphabet(agent):
-    ops = ["L"]
+def alphabet(agent, wrapped=False):
+    ops = ["L"] + (["A"] if wrapped else [])
     ops += [f"Ma:{m}" for m in O.arch_methods(agent)]
     ops += ["Mp", "Mact"]
     ops += [f"Mh:{h}" for h in O.hp_names(agent)]
@@ -87,16 +91,39 @@ def inner(agent):
 
 def apply_op(agent, op, cfg, step):
     if cfg.get("wrapper"):
-        # operate on the wrapped agent (mutations work on EvolvableAlgorithm objects); learn goes through the wrapper
-        if op in ("L",):
-            for _ in range(getattr(inner(agent), "policy_freq", 1)):
-                with seeded(step):
-                    agent.learn(A.make_batch(cfg["algo"], cfg["kind"], seed=step))
+        algo, kind = cfg["algo"], cfg["kind"]
+        if op == "A":  # act in training mode: moves the wrapper's running statistics
+            with seeded(step):
+                if algo == "DQN":
+                    agent.get_action(A.sample_obs(A.obs_space(kind), 3, np.random.default_rng(step)), epsilon=0.0)
+                else:
+                    agent.get_action(A.sample_obs(A.obs_space(kind), 3, np.random.default_rng(step)), training=True)
             return agent
-        new_inner = c01.apply_op(inner(agent), op, cfg, step)
-        agent.agent = new_inner
-        return agent
+        if op == "L":  # learn through the wrapper (normalises the batch with the current statistics)
+            for r in range(getattr(inner(agent), "policy_freq", 1)):
+                b = A.batch_for(inner(agent), algo, kind, seed=step)
+                with seeded(step + r):
+                    if algo in ("DDPG", "TD3"):
+                        agent.learn(b, policy_noise=0.0)
+                    else:
+                        agent.learn(b)
+            return agent
+        # mutations and clones act on the wrapper exactly as on a bare agent (populations of wrappers)
+        return c01.apply_op(agent, op, cfg, step)
     return c01.apply_op(agent, op, cfg, step)
+
+
+def rms_state(w):
+    """flat {name: array} of the wrapper's running statistics"""
+    out = {}
+    rms = getattr(w, "obs_rms", None)
+    items = rms.items() if isinstance(rms, dict) else enumerate(rms) if isinstance(rms, tuple) else [("", rms)]
+    for k, r in items:
+        for f in ("mean", "var", "count"):
+            v = getattr(r, f, None)
+            if v is not None:
+                out[f"{k}.{f}"] = np.asarray(v.detach().cpu() if hasattr(v, "detach") else v, dtype=np.float64)
+    return out
 
 
 def strict_compare(p, P, R, cfg, hist, path_name, rp):
@@ -112,13 +139,11 @@ def strict_compare(p, P, R, cfg, hist, path_name, rp):
         v("class", f"{type(R).__name__} instead of {type(P).__name__}")
         return False
     if cfg.get("wrapper"):
-        for k in ("obs_rms",):
-            a, b = getattr(P, k, None), getattr(R, k, None)
-            if a is not None:
-                da = {kk: np.asarray(vv) for kk, vv in vars(a).items() if isinstance(vv, (np.ndarray, torch.Tensor, float, int))}
-                db = {kk: np.asarray(vv) for kk, vv in vars(b).items() if isinstance(vv, (np.ndarray, torch.Tensor, float, int))} if b is not None else {}
-                if sorted(da) != sorted(db) or any(not np.array_equal(da[x], db[x]) for x in da):
-                    v("wrapper-statistics", f"{k} differs")
+        da, db = rms_state(P), rms_state(R)
+        if not da:
+            raise HarnessError("RSNorm statistics not found on the wrapper")
+        if sorted(da) != sorted(db) or any(da[x].shape != db[x].shape or not np.array_equal(da[x], db[x]) for x in da):
+            v("wrapper-statistics", f"running observation statistics differ: {[x for x in da if x not in db or not np.array_equal(da[x], db[x])][:3]}")
     Pi, Ri = inner(P), inner(R)
     ia, ib = type(Pi).inspect_attributes(Pi, input_args_only=True), type(Ri).inspect_attributes(Ri, input_args_only=True)
     for k in sorted(set(ia) | set(ib)):
@@ -173,7 +198,16 @@ def strict_compare(p, P, R, cfg, hist, path_name, rp):
     if ok:
         obs = A.probe_obs(cfg["algo"], cfg["kind"])
         try:
-            ga, gb = A.greedy_action(Pi, obs), A.greedy_action(Ri, obs)
+            if cfg.get("wrapper"):
+                # the wrapper patches the inner agent's get_action and updates its statistics in training mode: probe in eval mode
+                Pi.set_training_mode(False)
+                Ri.set_training_mode(False)
+            try:
+                ga, gb = A.greedy_action(Pi, obs), A.greedy_action(Ri, obs)
+            finally:
+                if cfg.get("wrapper"):
+                    Pi.set_training_mode(True)
+                    Ri.set_training_mode(True)
             if ga.shape != gb.shape or not np.array_equal(ga, gb):
                 v("greedy-actions", "greedy actions differ")
         except Exception as e:
@@ -226,7 +260,7 @@ def check_history(p: Partial, cfg, hist):
             try:
                 with seeded(5):
                     if pname == "load":
-                        R = type(P).load(path) if not cfg.get("wrapper") else type(Pi).load(path)
+                        R = type(Pi).load(path)  # returns the wrapper again when one was saved
                     else:
                         R = build(cfg)
                         R.load_checkpoint(path)
@@ -239,7 +273,7 @@ def check_history(p: Partial, cfg, hist):
     finally:
         shutil.rmtree(d, ignore_errors=True)
     # ---- continuation: same ops, same seeds, same batches on original and restored
-    cont = ["L", "L", "Ma0", "L"]
+    cont = ["L", "L", "Ma0", "L"] if not cfg.get("wrapper") else ["A", "L", "L", "Ma0", "L"]
     agents_ = {"orig": P, **restored}
     alive = dict(agents_)
     for i, op in enumerate(cont):
@@ -255,13 +289,17 @@ def check_history(p: Partial, cfg, hist):
                 p.viol(f"{algo}/checkpoint/{name}/continuation-exception/{type(e).__name__}", f"{op} on the restored agent after {hist}: {e!r}"[:300], rp)
                 del alive[name]
         fo = {k: v for k, v in O.fingerprint(inner(alive["orig"])).items() if k.startswith(("net:", "opt:"))}
+        if cfg.get("wrapper"):
+            fo["rms"] = repr({k: v.tolist() for k, v in rms_state(alive["orig"]).items()})
         for name in list(alive):
             if name == "orig":
                 continue
             fr = {k: v for k, v in O.fingerprint(inner(alive[name])).items() if k.startswith(("net:", "opt:"))}
+            if cfg.get("wrapper"):
+                fr["rms"] = repr({k: v.tolist() for k, v in rms_state(alive[name]).items()})
             dd = O.fp_diff(fo, fr)
             if dd:
-                cls = sorted({O.classify_tensor_name(x) for x in dd})
+                cls = sorted({O.classify_tensor_name(x) if ":" in x else x for x in dd})
                 p.viol(f"{algo}/checkpoint/{name}/continuation-diverges", f"after history {hist} + continuation {cont[:i+1]}: original and restored differ in {cls[:4]}", rp)
                 del alive[name]
 
@@ -282,7 +320,7 @@ def run_task(task):
         return fin()
     tier = task["tier"]
     base = build(cfg)
-    sigma = alphabet(inner(base))
+    sigma = alphabet(inner(base), wrapped=bool(cfg.get("wrapper")))
     del base
     if task["first"] is None:
         check_history(p, cfg, [])
